@@ -60,6 +60,7 @@ def run(ctx, rep):
     r1(ctx, rep)
     r2(ctx, rep)
     r3(ctx, rep)
+    r8(ctx, rep)
     r5(ctx, rep)
     r6(ctx, rep)
     r7(ctx, rep)
@@ -478,3 +479,13 @@ def r7(ctx, rep):
                         f'the mapping {mp} becomes a {type(r).__name__ if r is not None else err}: markers (got, expected) {diff} -- Branch.append then does not '
                         f'record its {"world" if "Modal" in diff else "sentence constants" if "SentenceNode" in diff else "kind"}, and the branch offers it again as new')
     rep.floor('C06.R7', 'mappings', n, 20)
+
+
+def r8(ctx, rep):
+    """The serial rule's witness, decided on the code: access.Serial._get_targets folded over every (unserial, populated, history,
+    limit) state -- the successor it offers is branch.new_world() of the target branch (helpersfold.fold_serial_rule, shared with
+    C04.R7).  Runs before the schema rules: it is decisive on its own."""
+    R8 = rep.rule('C06.R8', 'the serial rule takes its successor world from branch.new_world() of the branch it extends, in every state of the branch '
+                            '(access.Serial._get_targets folded)')
+    n = common.bookkeeping(ctx, rep, R8, 'C06.R8', only=('fold_serial_rule',))
+    rep.floor('C06.R8', 'serial rule states', n, 50)
